@@ -32,8 +32,9 @@ StateFor(sc, frag) == [server |-> sc.side = "server", client |-> sc.side = "clie
                        extended |-> sc.extended, fragmented |-> frag]
 
 \* error classes a frame may legitimately be refused with, given the fragmentation state
+\* (with SkipHeaderCheck the header rules are not applied; the size limit and the extension's bit check still are)
 Refusals(sc, f, frag) ==
-    {<<"protocol", r>> : r \in Broken(HdrOf(f), StateFor(sc, frag))}
+    (IF sc.skip THEN {} ELSE {<<"protocol", r>> : r \in Broken(HdrOf(f), StateFor(sc, frag))})
       \cup (IF sc.ext /\ Rsv1(f.rsv) /\ (f.op = OpCont \/ IsControl(f.op)) THEN {<<"protocol", "compression_bit">>} ELSE {})
       \cup (IF sc.max > 0 /\ f.len > sc.max THEN {<<"too_large", "">>} ELSE {})
 
